@@ -753,6 +753,28 @@ def r1_7(ctx, R):
                             det = "Pending behind exhaustion of 0..%s (len read at bb%d, before the loop)" % (expr_str(hi), hi[3])
             if not ok:
                 ok, det = _turn_counter_exhausted(ctx, b, fl, pb, ibb)
+            if not ok:
+                # per arrival (the Pending may be handed on through a join, e.g. `ready!(inlined helper)`): every feasible path
+                # into this block has crossed the None edge of a `0..groups.len()` range iterator (len read before the loop)
+                from lib_flow import all_arrivals_cross
+
+                def _range_exhausted(lab):
+                    if lab[0] != "variant" or lab[2] != "None":
+                        return False
+                    x = strip_refs(lab[1])
+                    if not (x[0] == "call" and "Range" in (x[1] or "") and (x[1] or "").endswith("::next")):
+                        return False
+                    itx = strip_refs(x[2][0])
+                    while itx[0] == "call" and (itx[1] or "").endswith("into_iter"):
+                        itx = strip_refs(itx[2][0])
+                    if itx[0] == "agg" and itx[1].endswith("Range::Range"):
+                        lo, hi = itx[2]
+                        return lo[0] == "const" and lo[2] == "0" and hi[0] == "call" and (hi[1] or "").endswith("::len") \
+                            and "Vec" in hi[1] and not any(hi[3] in body for body in b.loops().values())
+                    return False
+                ok2, n2, badp = all_arrivals_cross(b, fl, pb, _range_exhausted)
+                if ok2:
+                    ok, det = True, "every one of %d feasible arrivals has crossed the exhaustion of 0..groups.len()" % n2
             ctx.ob("R1.7", b, "pending-only-after-all-groups#%d" % pend.index(pb), ok, b.loc(pb), det)
         ctx.floor("R1.7", "pending-returns:" + b.path, len(pend), 1)
         # (c) pending arm advances the cursor; loop head wraps
@@ -867,8 +889,19 @@ def r1_7(ctx, R):
                                     okb = True
                 if not okb:
                     bad_back = path
-        ctx.ob("R1.7", b, "exhausted-group-put-back-only-if-last-or-only", bad_back is None and n_back > 0, d_loc(b),
-               "%d put-back events on feasible paths" % n_back, path=bad_back)
+        det_back = "%d put-back events on feasible paths" % n_back
+        ok_back = bad_back is None and n_back > 0
+        if n_back == 0:
+            # the other way of keeping the tail: the exhausted group is removed only when it is not the last one
+            from groups import removal_never_of_last
+            inner_ = [bb for bb, t, fn in b.calls() if fn and not b.is_cleanup(bb)
+                      and re.search(RE_STREAM_POLL_NEXT, fn["def"]) and callee_body(ctx.facts, fn) is not None]
+            rems = [bb for bb, t, fn in direct_sites(b, r"alloc::vec::Vec::<.*>::remove$")]
+            if len(inner_) == 1 and rems:
+                res = [removal_never_of_last(ctx, b, fl_, inner_[0], rb, cur_field) for rb in rems]
+                ok_back = all(r_[0] for r_ in res)
+                det_back = "no put-back; " + "; ".join(r_[1] for r_ in res)
+        ctx.ob("R1.7", b, "exhausted-group-put-back-only-if-last-or-only", ok_back, d_loc(b), det_back, path=bad_back)
         for outcome in ("Pending", "None"):
             ctx.ob("R1.7", b, "iteration-after-%s-moves-on" % outcome, not bad[outcome] and seen[outcome] > 0, d_loc(b),
                    "after an inner %s the cursor is advanced/reset%s before the next inner poll; %d events, %d without progress" % (
